@@ -19,7 +19,7 @@
 (***************************************************************************)
 EXTENDS Mpt, Json, SequencesExt
 
-CONSTANTS Depth, Seed, Runs
+CONSTANTS Depth, Seed, Runs, VBlocks
 VARIABLES hist, rng
 gvars == <<vars, hist, rng>>
 
@@ -62,7 +62,7 @@ DeepOps ==
   SetToSeq({<<"G", k, 0>> : k \in KeyIds}) \o
   Times(5, <<"C", 0, 0>>) \o Times(5, <<"R", 0, 0>>) \o Times(5, <<"X", 0, 0>>) \o
   Times(3, <<"H", 0, 0>>) \o Times(2, <<"L", 0, 0>>) \o Times(2, <<"L", 0, 2>>) \o
-  Times(3, <<"P", 0, 0>>) \o Times(2, <<"P", 0, 1>>) \o Times(2, <<"P", 0, 2>>)
+  Times(3, <<"P", 0, 0>>) \o Times(2, <<"P", 0, 1>>) \o Times(1, <<"P", 0, 2>>) \o <<<<"P", 0, 3>>, <<"P", 0, 5>>>>
 
 Apply(c) ==
   CASE c[1] = "U" -> Update(c[2], c[3])
@@ -82,6 +82,31 @@ DeepNext == /\ Len(hist) < Depth
                IN  Apply(c) /\ hist' = Append(hist, c)
 DeepSpec == DeepInit /\ [][DeepNext]_dvars
 Dump == (Len(hist) = Depth) => PrintT(<<"HIST", ToJson(hist)>>)
+
+(* Mode "versions" (VerSpec): every history that commits a first version holding all keys *)
+(* and then VBlocks further versions, each one change (update to another value, delete,    *)
+(* re-insert) away from the previous one.  This is the class in which a node is re-created *)
+(* identically (delete + re-insert of a pair, overwrite back to an old value) while older   *)
+(* versions that reference it are still in the NodeDatabase memory layer.  The orchestrator *)
+(* appends to each such history the fan of NodeDatabase.Cap calls that flush exactly the    *)
+(* m oldest nodes, for every m (every prefix of the flush-list), and Cap(0).                *)
+VerFirst == CHOOSE v \in ValIds : \A w \in ValIds : v <= w
+VerKeys  == SetToSeq(KeyIds)
+VerInit ==
+  /\ content = [k \in KeyIds |-> VerFirst]
+  /\ tree = Canon(content) /\ limit = 0 /\ prov = "clean" /\ dbst = "cached"
+  /\ hist = [i \in 1..Len(VerKeys) |-> <<"U", VerKeys[i], VerFirst>>] \o << <<"C", 0, 0>> >>
+  /\ rng = <<0, 0, 0>>
+VerNext ==
+  /\ Len(hist) < Len(VerKeys) + 1 + 2 * VBlocks
+  /\ \E k \in KeyIds, v \in ValIds \cup {0} :
+       /\ v # content[k]
+       /\ content' = [content EXCEPT ![k] = v]
+       /\ tree' = UpdateTree(tree, k, v)
+       /\ hist' = hist \o << <<"U", k, v>>, <<"C", 0, 0>> >>
+  /\ UNCHANGED <<limit, prov, dbst, rng>>
+VerSpec == VerInit /\ [][VerNext]_gvars
+VerDump == (Len(hist) = Len(VerKeys) + 1 + 2 * VBlocks) => PrintT(<<"HIST", ToJson(hist)>>)
 
 (* the reference keeps the property along every generated history *)
 GenInv == InvCanon /\ InvLookup /\ InvEmbedded /\ InvMinimal
